@@ -48,6 +48,9 @@ NATIVE = {
     'n_find_header_window_limit': dict(crate='multiboot2-header', file='header.rs', props=['C13'],
         bound='buffer lengths {8190, 8192, 8196, 8200, 8216, 8448} x magic positions 8150..=8210 x header lengths {16, 24, 200, 400} (1464 cases), zero-filled otherwise',
         functions=['Multiboot2Header::find_header (8192-byte search window clause)']),
+    'n_builder_roundtrip': dict(crate='multiboot2', file='builder.rs', props=['C06'],
+        bound='real Builder run natively on 1711 cases: empty, full, every single slot, every 18-of-19 subset, all pairs, 1500 pseudo-random subsets (seeded by VERIF_SEED); three call orders; repeated setter calls; 0..=3 modules (descending addresses) / SMBIOS / custom tags (duplicate id) interleaved; oracle = supplied tag images in the documented order + end tag vs BootInformation::load(..).tags()',
+        functions=['Builder::build and all setters on COMPILED code (cross-check of the Verus proof; Kani cannot compile the builder)']),
 }
 
 # V obligations with a COMPLETE Kani proof of the *same contract*: if the V proof fails while
